@@ -23,6 +23,8 @@ type cbWorld struct {
 	cbs  map[string]func(api.ResponseMessage) // "F1/a" -> function value (one value per name and feature)
 	reg  map[string][]string                  // model: "F/ctr" -> callback names registered (returned nil)
 	rres map[string][]string                  // model: F -> result callbacks
+	gone map[string]bool                      // peers whose connection was removed
+	last int                                  // counter of the last request sent by a reqcb operation (0: none)
 }
 
 //go:norace
@@ -52,7 +54,7 @@ func describe(kind, f, name string, m api.ResponseMessage) string {
 }
 
 func newCBWorld() *cbWorld {
-	c := &cbWorld{w: stdWorld(false, "A", "B"), cbs: map[string]func(api.ResponseMessage){}, reg: map[string][]string{}, rres: map[string][]string{}}
+	c := &cbWorld{w: stdWorld(false, "A", "B"), cbs: map[string]func(api.ResponseMessage){}, reg: map[string][]string{}, rres: map[string][]string{}, gone: map[string]bool{}}
 	for _, f := range []string{"F1", "F2"} {
 		f := f
 		// distinct function literals: distinct function values
@@ -91,8 +93,58 @@ func (c *cbWorld) apply(op string, judge bool) (viol []string, digest string, ef
 		c.rres[F] = append(c.rres[F], name)
 		effect = true
 		digest = "addres"
+	case "reqcb":
+		// a real read request of the limit list to peer p's LoadControl server, with a response callback for
+		// the counter the request got (both peers' connections count their messages from the same start, so
+		// requests to A and to B normally carry EQUAL counters)
+		F, p, name := f[1], f[2], f[3]
+		if c.gone[p] {
+			digest = "reqcb:gone"
+			break
+		}
+		rf := c.w.Peers[p].Dev.FeatureByAddress(cliAddr(p, "e1f4", true))
+		ctr, rerr := c.feat(F).RequestRemoteData(fnLimit, nil, nil, rf)
+		if rerr != nil || ctr == nil {
+			viol = append(viol, fmt.Sprintf("a read request to a connected peer failed | op=%s err=%v", op, rerr))
+			break
+		}
+		c.last = int(*ctr)
+		err := c.feat(F).AddResponseCallback(*ctr, c.cbs[F+"/"+name])
+		key := fmt.Sprintf("%s/%d", F, *ctr)
+		dup := false
+		for _, n := range c.reg[key] {
+			dup = dup || n == name
+		}
+		if judge && dup != (err != nil) {
+			viol = append(viol, fmt.Sprintf("registering a response callback: refusal expected=%v got error=%v | op=%s", dup, err != nil, op))
+		}
+		if err == nil {
+			c.reg[key] = append(c.reg[key], name)
+		}
+		effect = true
+		digest = fmt.Sprint("reqcb:", err == nil)
+	case "disc":
+		// the connection of a peer is removed; nothing is said about callbacks, so every registered callback
+		// still fires at the first accepted message referencing its counter (here: from the other peer)
+		if !c.gone[f[1]] {
+			c.gone[f[1]] = true
+			c.w.L.RemoveRemoteDeviceConnection(f[1])
+			effect = true
+		}
+		digest = "disc"
 	case "reply", "result":
 		F, refS, p, variant := f[1], f[2], f[3], f[4]
+		if c.gone[p] {
+			digest = f[0] + ":gone"
+			break
+		}
+		if refS == "@" {
+			if c.last == 0 {
+				digest = f[0] + ":noreq"
+				break
+			}
+			refS = fmt.Sprint(c.last)
+		}
 		pe := c.w.Peers[p]
 		src := cliAddr(p, "e1f4", true)
 		var ref *model.MsgCounterType
@@ -170,15 +222,17 @@ func (c *cbWorld) key() string {
 		rs = append(rs, k+"="+strings.Join(v, ","))
 	}
 	sort.Strings(rs)
-	return strings.Join(parts, " ") + " reg=" + strings.Join(ks, ";") + " res=" + strings.Join(rs, ";")
+	return strings.Join(parts, " ") + " reg=" + strings.Join(ks, ";") + " res=" + strings.Join(rs, ";") + fmt.Sprintf(" gone=%v%v last=%d", c.gone["A"], c.gone["B"], c.last)
 }
 
 func c14Alphabet(thorough bool) []string {
 	a := []string{"addcb:F1:1:a", "addcb:F1:1:b", "addcb:F1:2:a", "addcb:F2:1:a", "addres:F1:ra",
 		"reply:F1:1:A:valid", "reply:F1:2:A:valid", "reply:F1:3:A:valid", "reply:F1:1:B:valid", "reply:F1:1:A:invalid", "reply:F2:1:A:valid",
 		"result:F1:1:A:ok", "result:F1:1:B:err", "result:F1:2:A:err", "result:F2:1:A:ok", "result:F1:3:A:ok"}
+	// callbacks of real requests to two peers (equal counters), connection removals in between
+	a = append(a, "reqcb:F1:A:a", "reqcb:F1:B:b", "disc:A", "reply:F1:@:B:valid", "result:F1:@:A:ok")
 	if thorough {
-		a = append(a, "addres:F1:rb", "addres:F2:ra", "addcb:F2:2:b", "reply:F2:2:B:valid", "result:F2:2:B:ok", "reply:F1:none:A:valid", "result:F1:none:A:ok")
+		a = append(a, "addres:F1:rb", "addres:F2:ra", "disc:B", "reqcb:F2:A:a", "reply:F1:@:A:valid", "reply:F2:@:B:valid", "addcb:F2:2:b", "reply:F2:2:B:valid", "result:F2:2:B:ok", "reply:F1:none:A:valid", "result:F1:none:A:ok")
 	}
 	return a
 }
